@@ -205,8 +205,11 @@ def renderMatch (cf : Conf) (key : String) (m : Match Row) : List (List String) 
     (List.range rows.length).map fun i =>
       let pre := rows.take (i + 1)
       let x := rows.getD i (default, 0)
+      -- PREV(id) / NEXT(id) in MEASURES are positioned on the row being projected, inside the match (NULL beyond its ends)
+      let prevId := if i == 0 then "n" else (match rows[i - 1]? with | some y => toString y.1.id | none => "n")
+      let nextId := match rows[i + 1]? with | some y => toString y.1.id | none => "n"
       ["r", hexStr key, toString m.matchNo, toString x.1.id, clsTok cf x.2, toString (i + 1),
-       toString (pre.foldl (fun s y => s + y.1.id) 0)]
+       toString (pre.foldl (fun s y => s + y.1.id) 0), prevId, nextId]
   else
     match rows.head?, rows.getLast? with
     | some f, some l =>
@@ -292,9 +295,10 @@ def groupR (ls : List (List String)) : List RawMatch := Id.run do
   let mut out : List RawMatch := []
   let mut cur : Option RawMatch := none
   let mut runSum : Nat := 0
+  let mut lastNid : String := "n"
   for l in ls do
     match l with
-    | ["r", key, mn, id, cls, n, idsum] =>
+    | ["r", key, mn, id, cls, n, idsum, pid, nid] =>
       let mn := mn.toNat?.getD 0
       let id := id.toNat?.getD 0
       let n := n.toNat?.getD 0
@@ -304,7 +308,7 @@ def groupR (ls : List (List String)) : List RawMatch := Id.run do
         | some c => !(c.key == key && c.mn == mn) || n == 1
       if startNew then
         match cur with
-        | some old => out := out ++ [old]
+        | some old => out := out ++ [{ old with ok := old.ok && lastNid == "n" }]   -- NEXT of a match's last row is NULL
         | none => pure ()
         cur := some { key := key, mn := mn, ids := [], labels := some [], ok := true }
         runSum := 0
@@ -314,12 +318,18 @@ def groupR (ls : List (List String)) : List RawMatch := Id.run do
         let lbl := match c.labels, clsOf cls with
           | some ls, some a => some (ls ++ [a])
           | _, _ => none
+        -- PREV(id) is the id of the row before this one inside the match (NULL on its first row); the NEXT(id) of the row
+        -- before names this row
+        let prevOk := match c.ids.getLast? with
+          | none => pid == "n"
+          | some q => pid == toString q && lastNid == toString id
         cur := some { c with ids := c.ids ++ [id], labels := lbl,
-                             ok := c.ok && n == c.ids.length + 1 && idsum == runSum }
+                             ok := c.ok && n == c.ids.length + 1 && idsum == runSum && prevOk }
       | none => pure ()
+      lastNid := nid
     | _ => pure ()
   match cur with
-  | some c => out := out ++ [c]
+  | some c => out := out ++ [{ c with ok := c.ok && lastNid == "n" }]
   | none => pure ()
   return out
 
